@@ -5,6 +5,13 @@ import concurrent.futures, json, os, subprocess, sys, time
 from common import *
 
 MAX_VIOLATIONS = 40
+CHUNK = 300   # runs per harness process (processes are recycled so that in-process history stays short)
+
+
+def bin_cmd(b):
+    """a 'binary' is a path or a (path, extra_args) pair"""
+    return [b] if isinstance(b, str) else [b[0]] + list(b[1])
+
 CPUS = sorted(os.sched_getaffinity(0))
 
 
@@ -23,7 +30,7 @@ class Worker:
         while left > 0:
             if deadline and time.time() > deadline:
                 break
-            cmd = [self.binary, "--seeds", str(nxt), str(left), str(self.stride), "--tier", str(self.tier_num), "--variant", self.variant]
+            cmd = bin_cmd(self.binary) + ["--seeds", str(nxt), str(min(left, CHUNK)), str(self.stride), "--tier", str(self.tier_num), "--variant", self.variant]
             if self.cpu is not None:   # all threads of one simulated process on one core: baton passing stays cheap
                 cmd = ["taskset", "-c", str(self.cpu)] + cmd
             p = subprocess.run(cmd, stdout=subprocess.PIPE, stderr=subprocess.PIPE, text=True, env=self.env)
@@ -43,7 +50,11 @@ class Worker:
                 done += 1
                 last_seed = rec["seed"]
             if p.returncode == 0:
-                break
+                if done == 0:
+                    break
+                nxt = last_seed + self.stride
+                left -= done
+                continue
             if done == 0 or self.records[-1]["cls"] == "ok":
                 # the process died without reporting the run it was in: synthesise a record for that seed
                 seed = nxt if last_seed is None else last_seed + self.stride
@@ -71,7 +82,7 @@ def replay_once(binary, rec, plan, decisions, tmp_path, env=None):
     if decisions is not None:
         obj["decisions"] = decisions
     json.dump(obj, open(tmp_path, "w"))
-    p = subprocess.run([binary, "--replay", tmp_path], stdout=subprocess.PIPE, stderr=subprocess.PIPE, text=True, env=env)
+    p = subprocess.run(bin_cmd(binary) + ["--replay", tmp_path], stdout=subprocess.PIPE, stderr=subprocess.PIPE, text=True, env=env)
     out = None
     for line in p.stdout.splitlines():
         if line.startswith("{"):
@@ -86,22 +97,32 @@ def replay_once(binary, rec, plan, decisions, tmp_path, env=None):
     return out["cls"], out
 
 
-def ddmin(items, test, budget):
-    """classic delta debugging over a list; test(sublist) -> True when the violation persists"""
+def first_true(cands, test, par):
+    """index of the first candidate (in order) for which test() holds, evaluating up to 'par' candidates concurrently;
+    the answer does not depend on timing: candidates are examined in waves and the lowest passing index wins"""
+    for w in range(0, len(cands), par):
+        wave = cands[w:w + par]
+        with concurrent.futures.ThreadPoolExecutor(max_workers=len(wave)) as ex:
+            res = list(ex.map(test, wave))
+        for i, ok in enumerate(res):
+            if ok:
+                return w + i
+    return -1
+
+
+def ddmin(items, test, budget, par=8):
+    """delta debugging over a list; test(sublist) -> True when the violation persists"""
     n = 2
     while len(items) >= 2 and budget[0] > 0:
         chunk = max(1, len(items) // n)
         subsets = [items[i:i + chunk] for i in range(0, len(items), chunk)]
-        reduced = False
-        for i in range(len(subsets)):
-            if budget[0] <= 0:
-                break
-            comp = [x for j, s in enumerate(subsets) if j != i for x in s]
-            budget[0] -= 1
-            if test(comp):
-                items, n, reduced = comp, max(n - 1, 2), True
-                break
-        if not reduced:
+        comps = [[x for j, s in enumerate(subsets) if j != i for x in s] for i in range(len(subsets))]
+        comps = comps[:max(1, budget[0])]
+        budget[0] -= len(comps)
+        k = first_true(comps, test, par)
+        if k >= 0:
+            items, n = comps[k], max(n - 1, 2)
+        else:
             if n >= len(items):
                 break
             n = min(len(items), n * 2)
@@ -112,16 +133,28 @@ def ddmin(items, test, budget):
     return items
 
 
-def minimise(binary, rec, signature, tmp_path, max_trials=500, env=None):
+_tmp_counter = [0]
+
+
+def minimise(binary, rec, signature, tmp_path, max_trials=400, env=None):
+    import threading
     cls, sig = rec["cls"], signature(rec)
     plan = {"params": list(rec["plan"]["params"]), "ops": [list(o) for o in rec["plan"]["ops"]], "faults": [list(f) for f in rec["plan"]["faults"]]}
     dec = list(rec.get("decisions", []))
     budget = [max_trials]
     trials = [0]
+    lock = threading.Lock()
 
     def same(p, d):
-        trials[0] += 1
-        c, o = replay_once(binary, rec, p, d, tmp_path, env)
+        with lock:
+            trials[0] += 1
+            _tmp_counter[0] += 1
+            tp = "%s.%d" % (tmp_path, _tmp_counter[0])
+        try:
+            c, o = replay_once(binary, rec, p, d, tp, env)
+        finally:
+            if os.path.exists(tp):
+                os.remove(tp)
         if c != cls:
             return False
         o.setdefault("variant", rec.get("variant", ""))
@@ -151,20 +184,37 @@ def minimise(binary, rec, signature, tmp_path, max_trials=500, env=None):
             lo = mid + 1
     if hi < len(dec) and same(plan, dec[:hi]):
         dec = dec[:hi]
-    dec = ddmin(dec, lambda d: same(plan, d), budget)
-    for i in range(len(dec)):
-        if budget[0] <= 0:
-            break
-        if dec[i] != 0:
-            budget[0] -= 1
-            d2 = list(dec); d2[i] = 0
-            if same(plan, d2):
-                dec = d2
+    # then zero whole blocks of decisions ("keep running the current thread"), halving the block size
+    blk = max(1, len(dec) // 4)
+    while blk >= 1 and budget[0] > 0:
+        cands = []
+        for i in range(0, len(dec), blk):
+            if any(dec[i:i + blk]):
+                cands.append(dec[:i] + [0] * len(dec[i:i + blk]) + dec[i + blk:])
+        cands = cands[:max(1, budget[0])]
+        budget[0] -= len(cands)
+        # greedy: accept passing candidates one after the other (each re-checked against the current list)
+        with concurrent.futures.ThreadPoolExecutor(max_workers=8) as ex:
+            res = list(ex.map(lambda d: same(plan, d), cands))
+        changed = False
+        for cnd, okc in zip(cands, res):
+            if okc:
+                merged = [a if (a == b) else 0 for a, b in zip(dec, cnd)]
+                if merged != dec:
+                    budget[0] -= 1
+                    if same(plan, merged):
+                        dec = merged; changed = True
+        if not changed or blk == 1:
+            blk //= 2
+    while dec and dec[-1] == 0:
+        dec.pop()
     c, o = replay_once(binary, rec, plan, dec, tmp_path, env)
     out = {"property": rec.get("property", ""), "seed": rec["seed"], "variant": rec.get("variant", ""), "cfg": rec["cfg"], "plan": plan, "decisions": dec,
            "class": cls, "signature": sig, "detail": o.get("detail", ""), "hash": o.get("hash", ""), "text": o.get("text", ""),
            "original": {"ops": len(rec["plan"]["ops"]), "faults": len(rec["plan"]["faults"]), "decisions": len(rec.get("decisions", []))},
-           "minimised": {"ops": len(plan["ops"]), "faults": len(plan["faults"]), "decisions": len(dec)}, "trials": trials[0]}
+           "minimised": {"ops": len(plan["ops"]), "faults": len(plan["faults"]), "decisions": len(dec), "nonzero_decisions": sum(1 for x in dec if x)}, "trials": trials[0]}
+    if c != cls:
+        return None, trials[0]
     return out, trials[0]
 
 
@@ -182,7 +232,7 @@ def run_sim_check(spec, args):
         rep = json.load(open(args.replay))
         v = rep.get("variant", "") or variants[0]
         b = binaries.get(v, binaries[variants[0]])
-        p = subprocess.run([b, "--replay", args.replay], stdout=subprocess.PIPE, stderr=subprocess.PIPE, text=True, env=env)
+        p = subprocess.run(bin_cmd(b) + ["--replay", args.replay], stdout=subprocess.PIPE, stderr=subprocess.PIPE, text=True, env=env)
         cls, out = "no-output", {}
         for line in p.stdout.splitlines():
             if line.startswith("{"):
@@ -207,14 +257,19 @@ def run_sim_check(spec, args):
     records = []
     rounds = 0
     while True:
-        per_variant = total // len(variants)
+        vr = spec.get("variant_runs", {})
+        plain = [v for v in variants if v not in vr]
+        per_variant = (total - sum(vr.values())) // max(1, len(plain))
         workers = []
+        off = 0
         for vi, v in enumerate(variants):
-            nw = max(1, NPROC // len(variants))
+            nruns = vr.get(v, per_variant)
+            nw = max(1, min(NPROC // len(variants), (nruns + 99) // 100))
             for w in range(nw):
-                cnt = (per_variant - w + nw - 1) // nw
+                cnt = (nruns - w + nw - 1) // nw
                 if cnt > 0:
-                    workers.append(Worker(binaries[v], v, tier_num, base + rounds * total + w, cnt, nw, env, cpu=CPUS[len(workers) % len(CPUS)]))
+                    workers.append(Worker(binaries[v], v, tier_num, base + rounds * total + off + w, cnt, nw, env, cpu=CPUS[len(workers) % len(CPUS)]))
+            off += 0   # every variant explores the same seeds: differences between variants are then attributable to the variant
         with concurrent.futures.ThreadPoolExecutor(max_workers=len(workers)) as ex:
             list(ex.map(lambda w: w.go(deadline), workers))
         for w in workers:
@@ -278,45 +333,59 @@ def run_sim_check(spec, args):
     exit_code = 0
     reported = []
     rd = replay_dir(pid)
-    for gi, key in enumerate(sorted(groups)):
+    machinery_errors = []
+
+    def handle_group(item):
+        gi, key = item
         cls, sig = key
+        lines = []
         g = sorted(groups[key], key=lambda r: (len(r.get("decisions", [])), r["seed"]))
         rec = g[0]
         rec["property"] = pid
         rec["param_min"] = spec.get("param_min", [])
         kf = match_known(known, cls, sig)
         path = os.path.join(rd, "%s_%s_%d.json" % (cls, sha(sig)[:8], rec["seed"]))
+        mini = None
         if "plan" not in rec:
             # died without a result line (hard crash): replay by seed is all we have
             json.dump({"property": pid, "seed": rec["seed"], "variant": rec["variant"], "class": cls, "detail": rec.get("detail", "")}, open(path, "w"), indent=1)
-            mini = None
         else:
-            mini, trials = minimise(binaries[rec["variant"]], rec, sig_fn, path + ".tmp", max_trials=(120 if gi >= 6 or kf else 500), env=env)
-            if os.path.exists(path + ".tmp"):
-                os.remove(path + ".tmp")
+            mini, trials = minimise(binaries[rec["variant"]], rec, sig_fn, path + ".tmp", max_trials=(100 if gi >= 6 or kf else 400), env=env)
             if mini is None:
-                log("MACHINERY ERROR: violation %s (seed %d, variant %s) did not reproduce in a fresh process" % (cls, rec["seed"], rec["variant"]))
-                return 2
+                machinery_errors.append("violation %s (seed %d, variant %s) did not reproduce in a fresh process" % (cls, rec["seed"], rec["variant"]))
+                return None
             json.dump(mini, open(path, "w"), indent=1)
             # gate: the minimised file must fail the same way, twice, in fresh processes
-            c1, o1 = replay_once(binaries[rec["variant"]], mini, mini["plan"], mini["decisions"], path + ".chk", env)
-            c2, o2 = replay_once(binaries[rec["variant"]], mini, mini["plan"], mini["decisions"], path + ".chk", env)
-            os.remove(path + ".chk")
+            c1, o1 = replay_once(binaries[rec["variant"]], mini, mini["plan"], mini["decisions"], path + ".chk1", env)
+            c2, o2 = replay_once(binaries[rec["variant"]], mini, mini["plan"], mini["decisions"], path + ".chk2", env)
+            os.remove(path + ".chk1"); os.remove(path + ".chk2")
             if c1 != cls or c2 != cls or o1.get("hash") != o2.get("hash"):
-                log("MACHINERY ERROR: minimised replay of %s is not stable (%s/%s)" % (cls, c1, c2))
-                return 2
+                machinery_errors.append("minimised replay of %s is not stable (%s/%s)" % (cls, c1, c2))
+                return None
         entry = {"class": cls, "signature": sig, "count": len(g), "first_seed": rec["seed"], "variant": rec["variant"], "replay": path,
                  "detail": (mini or rec).get("detail", "")[:600], "minimised": (mini or {}).get("minimised"), "original": (mini or {}).get("original"), "workload": (mini or rec).get("text", "")}
         if kf:
             entry["known_finding"] = kf.get("id", "")
-            log("KNOWN-FINDING: property=%s %s [%s; %d runs; replay=%s]" % (pid, kf.get("what", sig), cls, len(g), path))
+            lines.append("KNOWN-FINDING: property=%s %s [%s; %d runs; replay=%s]" % (pid, kf.get("what", sig), cls, len(g), path))
         else:
-            exit_code = 1
-            log("VIOLATION property=%s replay=%s" % (pid, path))
-            log("  class=%s runs=%d/%d first_seed=%d variant=%s" % (cls, len(g), len(records), rec["seed"], rec["variant"]))
-            log("  %s" % entry["detail"])
+            lines.append("VIOLATION property=%s replay=%s" % (pid, path))
+            lines.append("  class=%s signature=%s runs=%d/%d first_seed=%d variant=%s" % (cls, sig, len(g), len(records), rec["seed"], rec["variant"]))
+            lines.append("  %s" % entry["detail"])
             if mini:
-                log("  minimised %s -> %s in %d replays: %s" % (mini["original"], mini["minimised"], mini["trials"], mini.get("text", "")))
+                lines.append("  minimised %s -> %s in %d replays: %s" % (mini["original"], mini["minimised"], mini["trials"], mini.get("text", "")))
+        return entry, lines
+
+    with concurrent.futures.ThreadPoolExecutor(max_workers=4) as ex:
+        results = list(ex.map(handle_group, enumerate(sorted(groups))))
+    if machinery_errors:
+        for m in machinery_errors:
+            log("MACHINERY ERROR: " + m)
+        return 2
+    for entry, lines in results:
+        for l in lines:
+            log(l)
+        if "known_finding" not in entry:
+            exit_code = 1
         reported.append(entry)
 
     # ---------------- reach: required probes must not be stuck at zero (selftest-style warning, not a verdict)
